@@ -206,4 +206,162 @@ def safe (p : Prog) : Bool :=
   | some A => A.dirty.isEmpty
   | none => false
 
+
+/-! # Element-internal cells
+
+What a call may keep *inside the element* between calls.  Two kinds of storage:
+
+* **memo cells** — `cell c` holds `some (tag, value)`: a value together with the key it was computed
+  for (`self._surface` with `_actuators_for_cached_surface`; `_achromatic_screen` for the current
+  centre; an `InstanceData` under its (grid, wavelength) key; MFT matrices under their dtype).
+  `memoFill c e` stores `(current key of c, e)`; `memoRead r c fb` yields the stored value when the
+  stored tag equals the current key of `c` and the fallback `fb` (recomputation) otherwise.
+* **scratch buffers** — `scratch b` (the `internal_array` of an FFT object, the
+  `intermediate_array` of an MFT): overwritten with input data on every call.
+
+A program declares, per memo cell, which *atoms* (element parameters, the input's grid, the input's
+wavelength) form its key and the expression `spec c` the cell is a memo of.  `safeInternal` accepts
+a program iff every fill and every fallback of `c` is literally `spec c`, `spec c` mentions nothing
+but the key atoms of `c` (in particular never the input's field values or a local), cells are never
+updated in place or read without comparing the key, and every scratch read is preceded by a write in
+the same call.  `history_independent` (Properties/C06.lean): for accepted programs the result of
+any call after any history of calls and parameter changes is the result a fresh element gives. -/
+
+inductive Atom where
+  | param (i : Nat)
+  | grid
+  | wavelength
+  deriving DecidableEq, Repr
+
+inductive IExpr where
+  | atom (a : Atom)
+  /-- the field values of the wavefront passed in -/
+  | field
+  /-- a local of this call -/
+  | loc (r : Nat)
+  | op1 (f : Nat) (a : IExpr)
+  | op2 (f : Nat) (a b : IExpr)
+  deriving DecidableEq, Repr
+
+inductive IInstr where
+  | letE (r : Nat) (e : IExpr)
+  | memoFill (c : Nat) (e : IExpr)
+  | memoRead (r : Nat) (c : Nat) (fallback : IExpr)
+  /-- `cell.value <op>= e` : in-place update of what is stored, tag untouched (never accepted) -/
+  | cellUpdate (c : Nat) (e : IExpr)
+  /-- read whatever is stored, whatever key it was stored for (never accepted) -/
+  | rawRead (r : Nat) (c : Nat)
+  | scratchWrite (b : Nat) (e : IExpr)
+  | scratchRead (r : Nat) (b : Nat)
+  deriving DecidableEq, Repr
+
+structure IProg where
+  keyAtoms : Nat → List Atom
+  spec : Nat → IExpr
+  body : List IInstr
+  ret : IExpr
+
+/-- Interpretation of the opaque operations. -/
+structure ISem where
+  s1 : Nat → Int → Int
+  s2 : Nat → Int → Int → Int
+
+/-- The element between calls. -/
+structure EState where
+  params : Nat → Int
+  cells : Nat → Option (List Int × Int)
+  scratch : Nat → Int
+
+def EState.fresh (params : Nat → Int) : EState :=
+  { params := params, cells := fun _ => none, scratch := fun _ => 0 }
+
+def atomEnv (params : Nat → Int) (v : InVal) : Atom → Int
+  | .param i => params i
+  | .grid => v.grid
+  | .wavelength => v.wavelength
+
+def evalI (S : ISem) (ρ : Atom → Int) (fld : Int) (loc : Nat → Int) : IExpr → Int
+  | .atom a => ρ a
+  | .field => fld
+  | .loc r => loc r
+  | .op1 f a => S.s1 f (evalI S ρ fld loc a)
+  | .op2 f a b => S.s2 f (evalI S ρ fld loc a) (evalI S ρ fld loc b)
+
+/-- Running state of one call. -/
+structure IRun where
+  cells : Nat → Option (List Int × Int)
+  scratch : Nat → Int
+  loc : Nat → Int
+
+def stepI (S : ISem) (p : IProg) (ρ : Atom → Int) (fld : Int) (c : IRun) : IInstr → IRun
+  | .letE r e => { c with loc := upd c.loc r (evalI S ρ fld c.loc e) }
+  | .memoFill k e => { c with cells := upd c.cells k (some ((p.keyAtoms k).map ρ, evalI S ρ fld c.loc e)) }
+  | .memoRead r k fb =>
+    match c.cells k with
+    | some (tag, val) =>
+      if tag = (p.keyAtoms k).map ρ then { c with loc := upd c.loc r val }
+      else { c with loc := upd c.loc r (evalI S ρ fld c.loc fb) }
+    | none => { c with loc := upd c.loc r (evalI S ρ fld c.loc fb) }
+  | .cellUpdate k e =>
+    match c.cells k with
+    | some (tag, _) => { c with cells := upd c.cells k (some (tag, evalI S ρ fld c.loc e)) }
+    | none => c
+  | .rawRead r k =>
+    match c.cells k with
+    | some (_, val) => { c with loc := upd c.loc r val }
+    | none => { c with loc := upd c.loc r 0 }
+  | .scratchWrite b e => { c with scratch := upd c.scratch b (evalI S ρ fld c.loc e) }
+  | .scratchRead r b => { c with loc := upd c.loc r (c.scratch b) }
+
+def execI (S : ISem) (p : IProg) (ρ : Atom → Int) (fld : Int) (c : IRun) (body : List IInstr) : IRun :=
+  body.foldl (stepI S p ρ fld) c
+
+/-- One `forward`/`backward` on an element in state `E`: the result and the element afterwards. -/
+def callI (S : ISem) (p : IProg) (E : EState) (v : InVal) : Int × EState :=
+  let ρ := atomEnv E.params v
+  let c := execI S p ρ v.field ⟨E.cells, E.scratch, fun _ => 0⟩ p.body
+  (evalI S ρ v.field c.loc p.ret, { E with cells := c.cells, scratch := c.scratch })
+
+/-- What can happen to an element between two observations. -/
+inductive Event where
+  | call (v : InVal)
+  | setParam (i : Nat) (x : Int)
+
+def applyEvent (S : ISem) (p : IProg) (E : EState) : Event → EState
+  | .call v => (callI S p E v).2
+  | .setParam i x => { E with params := upd E.params i x }
+
+def runHistory (S : ISem) (p : IProg) (E : EState) (h : List Event) : EState := h.foldl (applyEvent S p) E
+
+/-- `e` mentions only atoms from `allowed`: no field values, no locals. -/
+def closedOver (allowed : List Atom) : IExpr → Bool
+  | .atom a => allowed.contains a
+  | .field => false
+  | .loc _ => false
+  | .op1 _ a => closedOver allowed a
+  | .op2 _ a b => closedOver allowed a && closedOver allowed b
+
+/-- Checker: walks the body carrying the scratch buffers written so far in this call. -/
+def checkI (p : IProg) : List IInstr → List Nat → Bool
+  | [], _ => true
+  | .letE _ _ :: rest, w => checkI p rest w
+  | .memoFill c e :: rest, w => (e == p.spec c) && closedOver (p.keyAtoms c) (p.spec c) && checkI p rest w
+  | .memoRead _ c fb :: rest, w => (fb == p.spec c) && closedOver (p.keyAtoms c) (p.spec c) && checkI p rest w
+  | .cellUpdate _ _ :: _, _ => false
+  | .rawRead _ _ :: _, _ => false
+  | .scratchWrite b _ :: rest, w => checkI p rest (b :: w)
+  | .scratchRead _ b :: rest, w => w.contains b && checkI p rest w
+
+def safeInternal (p : IProg) : Bool := checkI p p.body []
+
+/-- Memo cells and scratch buffers a program touches (what the harness compares with the attributes
+it sees change on the real element). -/
+def memoCells (p : IProg) : List Nat :=
+  (p.body.filterMap fun i => match i with
+    | .memoFill c _ => some c | .cellUpdate c _ => some c | _ => none).eraseDups
+
+def scratchCells (p : IProg) : List Nat :=
+  (p.body.filterMap fun i => match i with
+    | .scratchWrite b _ => some b | _ => none).eraseDups
+
 end HcipyVerif.Effects
